@@ -846,3 +846,99 @@ Section OneLevel.
         rewrite skipn_length, app_length. cbn [List.length]. unfold nsd in Ek. lia.
   Qed.
 End OneLevel.
+
+(* ------------------------------------------------------------------------------------------------------------
+   all basic indices, any nesting depth *)
+Lemma basic_cases idx : basic idx -> forall sd,
+  (consumed idx <= sd)%nat \/
+  exists pre x post, idx = pre ++ x :: post /\ basic pre /\ consumed pre = sd /\ basic post /\
+                     ((exists j, x = IInt j) \/ (exists a b c, x = ISl a b c)).
+Proof.
+  induction 1 as [|it idx Hit HB IH]; intros sd; [left; cbn; lia|].
+  destruct it as [j|a b c| | |? ?|? ?]; cbn in Hit; try contradiction.
+  - destruct sd as [|sd].
+    + right. exists [], (IInt j), idx.
+      split; [reflexivity|]. split; [constructor|]. split; [reflexivity|]. split; [exact HB|]. left. eauto.
+    + destruct (IH sd) as [Hs|[pre [x [post [E [Hp [Hc [Hpo Hx]]]]]]]].
+      * left. rewrite consumed_cons. cbn [consumes]. lia.
+      * right. exists (IInt j :: pre), x, post. subst idx.
+        split; [reflexivity|]. split; [constructor; [exact I|exact Hp]|].
+        split; [rewrite consumed_cons; cbn [consumes]; lia|]. split; [exact Hpo|exact Hx].
+  - destruct sd as [|sd].
+    + right. exists [], (ISl a b c), idx.
+      split; [reflexivity|]. split; [constructor|]. split; [reflexivity|]. split; [exact HB|]. right. eauto.
+    + destruct (IH sd) as [Hs|[pre [x [post [E [Hp [Hc [Hpo Hx]]]]]]]].
+      * left. rewrite consumed_cons. cbn [consumes]. lia.
+      * right. exists (ISl a b c :: pre), x, post. subst idx.
+        split; [reflexivity|]. split; [constructor; [exact I|exact Hp]|].
+        split; [rewrite consumed_cons; cbn [consumes]; lia|]. split; [exact Hpo|exact Hx].
+  - destruct (IH sd) as [Hs|[pre [x [post [E [Hp [Hc [Hpo Hx]]]]]]]].
+    + left. rewrite consumed_cons. cbn [consumes]. lia.
+    + right. exists (INone :: pre), x, post. subst idx.
+      split; [reflexivity|]. split; [constructor; [exact I|exact Hp]|].
+      split; [rewrite consumed_cons; cbn [consumes]; lia|]. split; [exact Hpo|exact Hx].
+Qed.
+
+Lemma basic_post post : basic post -> Forall post_item post.
+Proof. intros H. eapply Forall_impl; [|exact H]. intros [] Hb; cbn in *; tauto. Qed.
+Lemma basic_app a b : basic a -> basic b -> basic (a ++ b).
+Proof. intros. apply Forall_app. split; assumption. Qed.
+
+Lemma wf_forall_shapes parts bs : wf_forall parts bs -> Forall (fun p => shape_of p = Some bs) parts.
+Proof.
+  intros H. apply Forall_forall. intros p Hp. apply wf_shape. eapply wf_forall_In; eauto.
+Qed.
+Lemma wf_forall_sound parts bs : wf_forall parts bs -> Forall (fun p => sound p bs) parts.
+Proof.
+  intros H. apply Forall_forall. intros p Hp r e. apply at_sound. eapply wf_forall_In; eauto.
+Qed.
+
+(* THE index theorem for basic indices: whatever the nesting, lazy[idx] denotes dense[idx] *)
+Theorem getitem_basic : forall fuel self bs idx a' rsd,
+  wf_tree self bs -> basic idx -> res_shape idx bs = Some rsd ->
+  lz_getitem fuel self idx = Ok a' -> equiv a' (Index idx self).
+Proof.
+  induction fuel as [|f IH]; intros self bs idx a' rsd Hwf HB Hlegal H; [discriminate|].
+  cbn [lz_getitem] in H. inversion Hwf as [j bs' E1 E2|sd bs0 parts bs' Hne Hparts Hsd E1 E2]; subst.
+  - inversion H. apply equiv_refl.
+  - rewrite (wf_shape _ _ Hwf) in H.
+    destruct (split_at sd bs' Hsd) as [S1 [S2 [Ebs LS1]]]. subst bs'.
+    assert (Eins : insert_at sd (lenZ parts) (S1 ++ S2) = S1 ++ lenZ parts :: S2) by (rewrite <- LS1; apply insert_at_app).
+    rewrite Eins in H, Hlegal.
+    assert (HGm : forall m sub x rs, In m parts -> is_stack m = true -> basic sub -> res_shape sub (S1 ++ S2) = Some rs ->
+                                    lz_getitem f m sub = Ok x -> equiv x (Index sub m)).
+    { intros m sub x rs Hin _ Hbs Hrs Hx. eapply (IH m (S1 ++ S2) sub x rs); eauto. eapply wf_forall_In; eauto. }
+    destruct (basic_cases idx HB sd) as [Hs|[pre [x [post [E [Hp [Hc [Hpo Hx]]]]]]]].
+    + eapply (getitem_short (lz_getitem f) sd bs0 parts S1 S2 LS1 Hne (wf_forall_shapes _ _ Hparts)
+                (wf_forall_sound _ _ Hparts) basic HGm idx a' rsd); eauto.
+    + subst idx. destruct Hx as [[j Ej]|[a [b [c Ec]]]]; subst x.
+      * eapply (getitem_int (lz_getitem f) sd bs0 parts S1 S2 LS1 Hne (wf_forall_shapes _ _ Hparts)
+                  (wf_forall_sound _ _ Hparts) basic HGm pre j post a' rsd); eauto using basic_post, basic_app.
+      * eapply (getitem_slice (lz_getitem f) sd bs0 parts S1 S2 LS1 Hne (wf_forall_shapes _ _ Hparts)
+                  (wf_forall_sound _ _ Hparts) basic HGm pre a b c post a' rsd); eauto using basic_post, basic_app.
+Qed.
+
+(* one advanced index (integer tensor of any rank, mask of any rank >= 1) AFTER the stack dim, flat stack of plain members *)
+Theorem getitem_adv_after : forall fuel sd bs0 parts bs pre x post a' rsd,
+  parts <> [] -> Forall (fun p => wf_tree p bs /\ is_stack p = false) parts -> (sd <= List.length bs)%nat ->
+  basic pre -> consumed pre = sd -> ((exists j, x = IInt j) \/ (exists a b c, x = ISl a b c)) -> Forall post_item post ->
+  res_shape (pre ++ x :: post) (insert_at sd (lenZ parts) bs) = Some rsd ->
+  lz_getitem (S fuel) (Stack sd bs0 parts) (pre ++ x :: post) = Ok a' ->
+  equiv a' (Index (pre ++ x :: post) (Stack sd bs0 parts)).
+Proof.
+  intros fuel sd bs0 parts bs pre x post a' rsd Hne Hparts Hsd HB HC Hx HP Hlegal H.
+  assert (Hsh : Forall (fun p => shape_of p = Some bs) parts).
+  { eapply Forall_impl; [|exact Hparts]. intros p [Hw _]. apply wf_shape. exact Hw. }
+  assert (Hso : Forall (fun p => sound p bs) parts).
+  { eapply Forall_impl; [|exact Hparts]. intros p [Hw _] r e. apply at_sound. exact Hw. }
+  cbn [lz_getitem] in H. rewrite (shape_of_stack sd bs0 parts bs Hne Hsh Hsd) in H.
+  destruct (split_at sd bs Hsd) as [S1 [S2 [Ebs LS1]]]. subst bs.
+  assert (Eins : insert_at sd (lenZ parts) (S1 ++ S2) = S1 ++ lenZ parts :: S2) by (rewrite <- LS1; apply insert_at_app).
+  rewrite Eins in H, Hlegal.
+  assert (HGm : forall m sub y rs, In m parts -> is_stack m = true -> True -> res_shape sub (S1 ++ S2) = Some rs ->
+                                  lz_getitem fuel m sub = Ok y -> equiv y (Index sub m)).
+  { intros m sub y rs Hin Hst. exfalso. destruct (proj1 (Forall_forall _ _) Hparts m Hin) as [_ Hf]. congruence. }
+  destruct Hx as [[j Ej]|[a [b [c Ec]]]]; subst x.
+  - eapply (getitem_int (lz_getitem fuel) sd bs0 parts S1 S2 LS1 Hne Hsh Hso (fun _ => True) HGm pre j post a' rsd); eauto.
+  - eapply (getitem_slice (lz_getitem fuel) sd bs0 parts S1 S2 LS1 Hne Hsh Hso (fun _ => True) HGm pre a b c post a' rsd); eauto.
+Qed.
